@@ -1,9 +1,9 @@
 CONSTANTS
-  PK <- MC_PK
-  FT <- MC_FT
+  PK <- MC_PK2
+  FT <- MC_FT2
   Colon = 0
-  ReadDrops <- MC_Drops
-  ReReadKeys <- MC_ReRead
+  ReadDrops <- MC_Drops1
+  ReReadKeys <- MC_ReRead2
   InsertNewTagStoresChars = FALSE
   NonAtomicRead = FALSE
   NonAtomicQread = TRUE
